@@ -5,7 +5,7 @@ use crate::engine::{catch, CaseCtx, CaseReport, Failure, Property, Tier};
 use crate::gen::ast::*;
 use crate::gen::typed::{Gen, GenCfg};
 use crate::oal::*;
-use crate::refsem::{analyse_cycles, expected, Expected};
+use crate::refsem::{analyse_cycles, order_dependent};
 use crate::rewrite::*;
 use crate::tape::Tape;
 use serde_json::{json, Value};
@@ -131,9 +131,15 @@ impl Property for C05 {
         let before = to_sources(&render_plain(&prog));
         let mut r = CaseReport::default();
         // X4 programs are order dependent by the known finding F9.
-        if let (Expected::Excluded(why), _) = expected(&prog) {
-            if why.starts_with("X4") {
+        match order_dependent(&prog) {
+            Some(false) => {}
+            Some(true) => {
                 r.label("excluded:X4");
+                r.hash = before.hash64();
+                return r;
+            }
+            None => {
+                r.label("excluded:reference-cannot-evaluate");
                 r.hash = before.hash64();
                 return r;
             }
@@ -157,6 +163,13 @@ impl Property for C05 {
             if let Some(s) = step {
                 steps.push(s);
             }
+        }
+        // A rewrite can move an annotated use of a shared component to where it collides with another
+        // use (same rec node, same scope): the rewritten program is then in the X4 class itself.
+        if order_dependent(&p2) != Some(false) {
+            r.label("excluded:X4-after-rewrite");
+            r.hash = before.hash64();
+            return r;
         }
         let trivia = tape.chance(1, 3);
         let after = if trivia {
